@@ -12,6 +12,7 @@ import (
 	"fmt"
 	"sort"
 	"sync"
+	"sync/atomic"
 	"time"
 
 	"github.com/ava-labs/avalanchego/database"
@@ -84,7 +85,35 @@ func (a *SimAction) StateKeys(codec.Address, ids.ID) state.Keys {
 	for _, d := range a.Decl {
 		ks[string(d.Key)] |= d.Perm
 	}
+	if !SharedActionKeys.Load() {
+		return ks
+	}
+	// an action type is free to hand out a retained key set (a static table, a cache): actions with the same
+	// declaration then return the very same map, which callers must treat as read-only
+	id := fmt.Sprintf("%v", a.Decl)
+	actionKeyTable.mu.Lock()
+	defer actionKeyTable.mu.Unlock()
+	if got, ok := actionKeyTable.m[id]; ok {
+		return got
+	}
+	actionKeyTable.m[id] = ks
 	return ks
+}
+
+// SharedActionKeys switches SimAction.StateKeys to retained key sets (see there); ResetActionKeys empties
+// the table (once per run).
+var SharedActionKeys atomic.Bool
+
+var actionKeyTable = struct {
+	mu sync.Mutex
+	m  map[string]state.Keys
+}{m: map[string]state.Keys{}}
+
+func ResetActionKeys(on bool) {
+	actionKeyTable.mu.Lock()
+	actionKeyTable.m = map[string]state.Keys{}
+	actionKeyTable.mu.Unlock()
+	SharedActionKeys.Store(on)
 }
 
 // Execute interprets the op list. The output records everything the action
